@@ -289,6 +289,93 @@ def short_body(struct):
 BODIES = {'enc': enc_body, 'dec': dec_body, 'short': short_body}
 
 
+# ------------------------------------------------------------------------------------------
+# sizes across the one- and two-octet boundaries of every length / count field (they are 24- and 16-bit big-endian fields:
+# an arithmetic slip in the high octets only shows beyond 255 and beyond 65535)
+def large_cases(tier):
+    """(name, edition, section 2 local octets or None, descriptor list, number of subsets, compressed)"""
+    out = []
+    for ed in EDITIONS:
+        # data section just below / at / above 256 and 65536 octets (4 + k*255 + r characters)
+        for total in (252, 256, 257, 65535, 65536, 65537, 66000):
+            n = total - 4
+            k, r = divmod(n, 255)
+            descs = [205255] * k + ([205000 + r] if r else [])
+            out.append(('sec4-%d' % total, ed, None, descs, 1, False))
+        # section 3 with 124..129 and 254..257 descriptors (7 + 2n octets: 255/256/257 at n = 124/125; two-octet boundary far away)
+        for nd in (124, 125, 126, 254, 255, 256, 257):
+            out.append(('sec3-%ddescs' % nd, ed, None, [1001] * nd, 1, False))
+        # section 2 of 255 / 256 / 65532 / 65536 local octets
+        for n2 in (251, 252, 253, 65531, 65532, 65533):
+            out.append(('sec2-%d' % (n2 + 4), ed, bytes((i * 7 + 3) & 0xFF for i in range(n2)), [1001], 1, False))
+    # subset counts across 255/256 and (edition 4 only: cost) 65535, uncompressed and compressed
+    for ed in EDITIONS:
+        for ns in (255, 256, 257):
+            for comp in (False, True):
+                out.append(('nsub-%d-%s' % (ns, 'c' if comp else 'u'), ed, None, [1001, 2001], ns, comp))
+    if tier == 'thorough':
+        for comp in (False, True):
+            out.append(('nsub-65535-%s' % ('c' if comp else 'u'), 4, None, [2001], 65535, comp))
+    return out
+
+
+def run_large(cases):
+    p = Partial()
+    B, D = S.tables_for(33)
+    for name, ed, s2, descs, nsub, comp in cases:
+        cnt = [0]
+
+        def chooser(info):
+            cnt[0] += 1
+            if info['kind'] == 'str':
+                nb = info['width'] // 8
+                return bytes(65 + (cnt[0] + i) % 26 for i in range(nb))
+            w = info['width']
+            if comp:
+                return [(s_ * 5 + cnt[0]) % ((1 << w) - 1) for s_ in range(nsub)]
+            return (info['subset'] * 5 + cnt[0]) % ((1 << w) - 1)
+        buf, subs, notes, nb = codec.encode(B, D, descs, nsub, comp, chooser)
+        spec = message.Spec(edition=ed, sec2=s2, descs=descs, nsub=nsub, compressed=comp)
+        natural, info = message.build(spec, buf)
+        case = {'name': name, 'edition': ed, 'nsub': nsub, 'compressed': comp, 'length': len(natural)}
+        p.n['exec'] += 1
+        p.outcome((name.split('-')[0], ed, comp, len(natural) > 65535))
+        # decoder: values, span, declared lengths, also with bytes behind the message
+        for trail in (b'', b'7777BUFR'):
+            st = S.impl_decode(decoder(), natural + trail, wire_template_data=False)
+            if st[0] == 'exc':
+                p.violation('large|decode-raises:%s|%s' % (st[1], name.split('-')[0]), case, st[2][:200])
+                break
+            d = S.compare_subsets(st[1], subs)
+            if d:
+                p.violation('large|decode-%s|%s' % (d[0], name.split('-')[0]), case, d[1])
+                break
+            if st[2].serialized_bytes != natural or st[2].length.value != len(natural):
+                p.violation('large|span|%s' % name.split('-')[0], case, 'serialized_bytes %d bytes / length %r, the message has %d'
+                            % (len(st[2].serialized_bytes), st[2].length.value, len(natural)))
+                break
+        # encoder: byte-identical, in recompute mode and honouring the (correct) declared lengths
+        pm = message.parse(natural)
+        vals = [list(s_.values) for s_ in subs]
+        for honour in (False, True):
+            lengths = {k: v[1] for k, v in pm.sections.items() if k in (1, 2, 3, 4)} if honour else None
+            if honour:
+                lengths['total'] = len(natural)
+            try:
+                with contextlib.redirect_stderr(io.StringIO()):
+                    got = encoder(honour).process(message.flat_json(spec, vals, lengths), wire_template_data=False).serialized_bytes
+            except Exception as e:
+                p.violation('large|encode-raises:%s|%s' % (type(e).__name__, name.split('-')[0]), dict(case, honour=honour), repr(e)[:200])
+                continue
+            if got != natural:
+                k = next((i for i, (x, y) in enumerate(zip(got, natural)) if x != y), min(len(got), len(natural)))
+                v = check_layout(got, spec, buf.n)
+                p.violation('large|encode-bytes|%s' % name.split('-')[0], dict(case, honour=honour),
+                            '%d bytes produced, %d expected; first difference at octet %d; framing: %r' % (len(got), len(natural), k, v))
+    p.n['nodes'], p.n['edges'] = p.n['exec'] + 1, p.n['exec']
+    return p
+
+
 def run_shard(args):
     kind, structs, bound = args
     p = Partial()
@@ -313,6 +400,10 @@ def run_shard(args):
 
 
 def replay(part, case):
+    if part == 'large':
+        cs = [c for c in large_cases('thorough') if c[0] == case['name'] and c[1] == case['edition']]
+        p = run_large(cs)
+        return [{'sig': v['sig'], 'detail': v['detail']} for v in p.viol if v['case'].get('honour') == case.get('honour')]
     s = case['struct']
     struct = ((s[0][0], s[0][1], s[0][2]), s[1], s[2])
     body = BODIES[case['kind']](struct)
@@ -339,4 +430,11 @@ def main(tier, seed):
         p = merge_all(run_shards(run_shard, [(kind, s, bound) for s in shards[k:] + shards[:k]]))
         rep.add_part(kind, p, bounds={'structures': len(structs), 'deviations': bound,
                                       'data_bit_lengths': '0..32', 'editions': EDITIONS, 'section2_variants': len(SEC2)})
+    lc = large_cases(tier)
+    p = merge_all(run_shards(run_large, [[c] for c in lc]))
+    rep.add_part('large', p, bounds={'cases': len(lc), 'section4_octets': [252, 256, 257, 65535, 65536, 65537, 66000],
+                                     'descriptors': [124, 125, 126, 254, 255, 256, 257], 'section2_octets': [255, 256, 257, 65535, 65536, 65537],
+                                     'subsets': [255, 256, 257] + ([65535] if tier == 'thorough' else []), 'editions': EDITIONS},
+                 rule='sizes across the one- and two-octet boundaries of the length and count fields, both directions, recompute and '
+                      'honour mode, bytes behind the message')
     return rep.finish()
